@@ -320,4 +320,190 @@ theorem raise_only_from_handler (I : Iface σ) (n : Nat) (ps : PS σ)
           · cases hk
           · simp [hsend] at hk
 
+/-! ### which key is taken from the queue, and queue order -/
+
+theorem takeCpr_spec (l : List KP) (k : KP) (q : List KP) (h : takeCpr l = some (k, q)) :
+    ∃ a b, l = a ++ k :: b ∧ q = a ++ b ∧ k.isCpr = true ∧ ∀ x ∈ a, x.isCpr = false := by
+  induction l generalizing k q with
+  | nil => simp [takeCpr] at h
+  | cons x xs ih =>
+    simp only [takeCpr] at h
+    by_cases hx : x.isCpr = true
+    · simp [hx] at h
+      obtain ⟨rfl, rfl⟩ := h
+      exact ⟨[], xs, rfl, rfl, hx, by simp⟩
+    · simp only [hx] at h
+      cases ht : takeCpr xs with
+      | none => simp [ht] at h
+      | some r =>
+        obtain ⟨c, rest⟩ := r
+        simp [ht] at h
+        obtain ⟨rfl, rfl⟩ := h
+        obtain ⟨a, b, e1, e2, e3, e4⟩ := ih c rest ht
+        refine ⟨x :: a, b, by simp [e1], by simp [e2], e3, ?_⟩
+        intro y hy
+        rcases List.mem_cons.mp hy with rfl | hy
+        · simpa using hx
+        · exact e4 y hy
+
+/-- `get_next()`: while the application is running the head of the queue is taken; once it is
+    done only the first CPR response is taken, everything else stays queued in order. -/
+theorem getNext_spec (I : Iface σ) (ps : PS σ) (k : KP) (q : List KP)
+    (h : getNext I ps = some (k, q)) :
+    (I.done ps.w = false → ps.queue = k :: q) ∧
+    (I.done ps.w = true → ∃ a b, ps.queue = a ++ k :: b ∧ q = a ++ b ∧ k.isCpr = true ∧
+        ∀ x ∈ a, x.isCpr = false) := by
+  unfold getNext at h
+  constructor
+  · intro hd
+    simp [hd] at h
+    cases hq : ps.queue with
+    | nil => simp [hq] at h
+    | cons x xs => simp [hq] at h; simp [h]
+  · intro hd
+    simp [hd] at h
+    exact takeCpr_spec _ _ _ h
+
+/-- all key presses taken from the queue (including `_Flush`) -/
+def taken : List Obs → List KP
+  | [] => []
+  | .pop k :: r => k :: taken r
+  | _ :: r => taken r
+
+theorem taken_append (a b : List Obs) : taken (a ++ b) = taken a ++ taken b := by
+  induction a with
+  | nil => rfl
+  | cons x xs ih => cases x <;> simp [taken, ih]
+
+section
+variable (I : Iface σ) (hq : ∀ w q b s p, (I.call w q b s p).2.1 = q)
+include hq
+
+theorem callHandler_queue (ps : PS σ) (b : Binding) (seq : List KP) :
+    (callHandler I ps b seq).1.queue = ps.queue ∧ taken (callHandler I ps b seq).2.1 = [] := by
+  have := hq ps.w ps.queue b seq ps.prev
+  cases h : (I.call ps.w ps.queue b seq ps.prev).2.2 <;> simp [callHandler, h, this, taken]
+
+theorem exec_queue (ps : PS σ) (d : Decision) :
+    (exec I ps d).1.queue = ps.queue ∧ taken (exec I ps d).2.1 = [] := by
+  cases d with
+  | idle => simp [exec, taken]
+  | wait => simp [exec, taken]
+  | dropOne => cases hb : ps.buffer <;> simp [exec, hb, taken]
+  | fire b n e =>
+    have := callHandler_queue I hq ps b (ps.buffer.take n)
+    simp only [exec]
+    split <;> simp [this]
+
+theorem runLoop_queue (n : Nat) (ps : PS σ) (f : Bool) :
+    (runLoop I n ps f).1.queue = ps.queue ∧ taken (runLoop I n ps f).2.1 = [] := by
+  induction n generalizing ps f with
+  | zero => simp [runLoop, taken]
+  | succ n ih =>
+    have he := exec_queue I hq { ps with w := (decideOf I ps f).1 } (decideOf I ps f).2
+    simp only [runLoop]
+    have he' : (examine I ps f).1.queue = ps.queue ∧ taken (examine I ps f).2.1 = [] := he
+    cases hc : (examine I ps f).2.2
+    · simpa using he'
+    · have := ih (examine I ps f).1 false
+      simp [taken_append, this, he']
+    · simpa using he'
+
+theorem send_queue (ps : PS σ) (kp : KP) :
+    (send I ps kp).1.queue = ps.queue ∧ taken (send I ps kp).2.1 = [] := by
+  cases kp with
+  | flush => simpa [send] using runLoop_queue I hq (ps.buffer.length + 1) ps true
+  | key k t =>
+    simpa [send] using
+      runLoop_queue I hq (ps.buffer.length + 2) { ps with buffer := ps.buffer ++ [.key k t] } false
+
+/-- **Input order**: when handlers do not feed keys and the application is not done, the
+    keys taken from the queue (in the order of the log) followed by the keys still queued are
+    the queue before — keys are consumed strictly in input order. -/
+theorem queue_order (hd : ∀ w, I.done w = false) (n : Nat) (ps : PS σ)
+    (hr : (processKeys I n ps).2.2 = false) :
+    taken (processKeys I n ps).2.1 ++ (processKeys I n ps).1.queue = ps.queue := by
+  induction n generalizing ps with
+  | zero => simp [processKeys, taken]
+  | succ n ih =>
+    simp only [processKeys] at hr ⊢
+    cases hk : pkStep I ps with
+    | none => simp [taken]
+    | some r =>
+      obtain ⟨ps', obs, raised⟩ := r
+      cases raised with
+      | true => simp [hk] at hr
+      | false =>
+        simp [hk] at hr
+        simp only [taken_append]
+        have ih' := ih ps' hr
+        rw [List.append_assoc, ih']
+        -- one step: the head of the queue was taken
+        unfold pkStep at hk
+        split at hk
+        · cases hk
+        · cases hg : getNext I ps with
+          | none => simp [hg] at hk
+          | some p =>
+            obtain ⟨kp, q⟩ := p
+            have hs := send_queue I hq { ps with queue := q } kp
+            have hgn := (getNext_spec I ps kp q hg).1 (hd ps.w)
+            simp only [hg] at hk
+            generalize (!kp.isFlush && !kp.isCpr) = plain at hk
+            cases hsr : (send I { ps with queue := q } kp).2.2
+            · simp [hsr] at hk
+              obtain ⟨h1, h2⟩ := hk
+              subst h1 h2
+              cases plain <;> simp [taken, taken_append, hs.1, hs.2, hgn]
+            · simp [hsr] at hk
+end
+
+/-! ### non-vacuity: a small concrete world -/
+
+/-- bindings `a`→h0, `a b`→h1, `Any`→h2 (active iff condition 0; h2 raises), `b`→h3 eager -/
+def toyBs : List Binding :=
+  [ { keys := [2], hid := 0, filter := .always, eager := .never, isGlobal := .never },
+    { keys := [2, 3], hid := 1, filter := .always, eager := .never, isGlobal := .never },
+    { keys := [0], hid := 2, filter := .cond 2 0, eager := .never, isGlobal := .never },
+    { keys := [3], hid := 3, filter := .always, eager := .always, isGlobal := .never } ]
+
+/-- world state = value of condition 0; handler 2 raises, the others return -/
+def toyI : Iface Bool where
+  getFor := fun w ks => (w, matchFor toyBs ks)
+  getStart := fun w ks => (w, matchStarting toyBs ks)
+  evalF := fun w f => f.eval (fun _ => w)
+  call := fun w q b _ _ => (w, q, if b.hid == 2 then .raise else .ok)
+  done := fun _ => false
+
+/-- queue `a c a b a` -/
+def toyPS (w : Bool) : PS Bool :=
+  { w := w, queue := [.key 2 1, .key 5 2, .key 2 3, .key 3 4, .key 2 5] }
+
+/-- `conservation` on a run with a single-key call, a dropped key, a two-key call and a pending key -/
+example : delivered (processKeys toyI 10 (toyPS false)).2.1
+      = [.key 2 1, .key 5 2, .key 2 3, .key 3 4] ∧
+    (processKeys toyI 10 (toyPS false)).1.buffer = [.key 2 5] ∧
+    popped (processKeys toyI 10 (toyPS false)).2.1 = (toyPS false).queue ∧
+    (processKeys toyI 10 (toyPS false)).2.2 = false := by decide
+
+/-- the hypothesis of `raise_resets` is satisfiable: with condition 0 on, `c` reaches the raising
+    handler while keys are still queued; afterwards everything is empty -/
+example : (processKeys toyI 10 (toyPS true)).2.2 = true ∧
+    (processKeys toyI 10 (toyPS true)).2.1 =
+      [.pop (.key 2 1), .before, .after, .pop (.key 5 2), .before, .call 0 [.key 2 1] [],
+       .raise 2 [.key 5 2] [.key 2 1]] ∧
+    (processKeys toyI 10 (toyPS true)).1.queue = [] := by decide
+
+/-- the hypotheses of `queue_order` hold in the toy world -/
+example : (∀ w q b s p, (toyI.call w q b s p).2.1 = q) ∧ (∀ w, toyI.done w = false) ∧
+    (processKeys toyI 3 (toyPS false)).2.2 = false ∧
+    taken (processKeys toyI 3 (toyPS false)).2.1 = [.key 2 1, .key 5 2, .key 2 3] ∧
+    (processKeys toyI 3 (toyPS false)).1.queue = [.key 3 4, .key 2 5] := by
+  refine ⟨fun _ _ _ _ _ => rfl, fun _ => rfl, by decide, by decide, by decide⟩
+
+/-- the hypothesis of `raise_only_from_handler` holds e.g. for the toy world without handler 2 -/
+example : ∀ w q b s p, ({ toyI with call := fun w q _ _ _ => (w, q, .ok) } : Iface Bool).call w q b s p
+    |>.2.2 ≠ .raise := by
+  intro w q b s p; simp
+
 end Ptk.C04
